@@ -160,6 +160,8 @@ func hyphenate(field string) string {
 }
 
 func runC15(p *Program, r *Report) {
+	engineConsistency(p, r, "C15.E", func(n string) bool { return strings.Contains(n, "safehtml.") })
+
 	r.Trusted = []string{"go/types + go/ssa", "fmt %s copies a string operand verbatim; %06X prints at least six upper-case hex digits", "CSS Syntax 3 (paper): a value over the documented alphabet, a double-quoted string without raw \" \\ newline, and the constant frames tokenize to one declaration per group and contain no '<'"}
 	r.NotDecided = []string{"the CSS-parser-level reading of the result (follows on paper from the decided alphabets and frames)"}
 	r.Explain = "Inventories every write into StyleFromProperties' buffer, groups them by the StyleProperties field whose non-emptiness guards them, and checks: one group per field in declaration order, documented property name, constant frame, dynamic part only through filter(field, pattern) / cssEscapeString(URLSanitized(·)) / identifier-guarded raw names; the value patterns' languages are included in the documented alphabets (automata over all Unicode); cssEscapeString's rune decision table excludes the CSS string metacharacters."
